@@ -133,7 +133,14 @@ func NonFiniteValues() []*VSpec {
 		VA(pi, pi), VA(ni, VS("a")), VA(VU(), pi), VA(pi, VU(), VS("a")), VA(VU(), ni, VI(1)),
 		VH(VS("a"), pi), VH(VS("a"), ni), VH(VS("a"), pi, VS("b"), VI(1)), VH(VS("a"), VI(1), VS("b"), pi), VH(pi, VI(1)), VH(VS("a"), VA(pi)),
 		VH(VS("a"), VH(VS("b"), ni)), VH(VS("a"), nan),
-		&VSpec{K: "Sensitive", Sub: []*VSpec{pi}}, &VSpec{K: "Sensitive", Sub: []*VSpec{VA(ni)}}}
+		&VSpec{K: "Sensitive", Sub: []*VSpec{pi}}, &VSpec{K: "Sensitive", Sub: []*VSpec{VA(ni)}},
+		// NaN next to other floats (either order), to integers, strings, undef, itself; nested; the edges of the finite floats
+		// and the negative zero next to the non-finite ones
+		VA(nan, VF(1.5)), VA(VF(1.5), nan), VA(nan, pi), VA(pi, nan), VA(nan, ni, pi), VA(nan, VI(1)), VA(VS("a"), nan), VA(nan, nan), VA(VU(), nan),
+		VA(VA(nan)), VA(VA(nan), VA(VF(1.5))), VH(VS("a"), nan, VS("b"), VF(1.5)), VH(VS("a"), VF(1.5), VS("b"), nan), VH(VS("a"), VA(nan)), VH(VI(1), nan),
+		&VSpec{K: "Sensitive", Sub: []*VSpec{nan}},
+		VA(VF(math.Copysign(0, -1)), nan), VA(VF(math.Copysign(0, -1)), VF(0)), VA(VF(math.MaxFloat64), pi), VA(pi, VF(math.MaxFloat64)), VA(VF(-math.MaxFloat64), ni),
+		VA(VF(math.MaxFloat64), VF(-math.MaxFloat64)), VA(VF(math.MaxFloat64), nan)}
 }
 
 // FloatFamilies: Float types with an infinite bound through the constructor and as the types the library infers for
